@@ -178,6 +178,9 @@ def session_jobs(scale=1.0):
             workers=(3, 20), cases=c(25, 375), time_s=(45, 800), args={"defrag-focus": True, "max-file-bytes": 400000}, **FULL),
         Job("sess-repeat-t1024-fragoff", engine="session", profile="smallchunk", env=senv(1024, 16384, 8, shard_min=4096, nranges=100000),
             workers=(3, 45), cases=c(60, 400), time_s=(45, 800), args={"repeat-bias": True, "no-global": True}, **FULL),
+        # many concurrent small multi-xorb files per session, a shard cut every few records: races on the shared session state
+        Job("sess-storm-t256-x1k", engine="session", profile="smallchunk", env=senv(256, 1024, 64, ib=512, shard_min=1024),
+            workers=(3, 30), cases=c(40, 400), time_s=(45, 800), args={"storm": True, "max-files": 24, "max-file-bytes": 6000, "max-sessions": 2, "no-global": True}, **FULL),
         Job("sess-prod-x1m-c16", engine="session", profile="prodlike", env=senv(65536, 1048576, 16),
             workers=(3, 12), cases=c(6, 150), time_s=(45, 800), args={"max-file-bytes": 3000000, "max-files": 4, "max-sessions": 3}, **FULL),
         # full default limits (64 KiB chunks, 64 MiB / 8192-chunk xorbs): a few large files, thorough tier only
@@ -202,14 +205,14 @@ DEDUPER_RULE = ("In addition FileDeduper alone is driven against a mock dedup in
 
 SESSION_ASSUMPTIONS = [
     "store = the repository's LocalClient behind a recording wrapper (remote HTTP upload path not driven)",
-    "interleavings of concurrently cleaned files are sampled (1/2/4/16 worker runtimes, seeded store delays), not enumerated",
+    "interleavings of concurrently cleaned files are sampled (1/2/4/16 worker runtimes, seeded store delays, a 'storm' configuration of 12..24 concurrent files with a shard cut every few records), not enumerated",
     "reference chunker / merkle / sha256 are independent implementations; shards handed to the store are parsed with the repository's shard reader (judged separately by C09)",
 ]
 
 SESSION_RULE = ("case = history of 1..4 upload sessions against one store (1..6 files per session built from recipes: fresh / const / periodic / low-entropy / "
                 "copies of earlier files at arbitrary offsets / self-copies / interleaved short dedup runs; sizes biased to 0, 1, chunk and xorb limits +-1, multi-xorb; "
                 "8 feed partitions; files cleaned sequentially or concurrently on 1/2/4/16-worker runtimes; seeded put / shard-upload delays; sessions with a fresh shard cache "
-                "exercise global dedup) under 6 limit configurations (one process each); every session whose calls all returned Ok is judged by all monitors. ")
+                "exercise global dedup) under 7 limit configurations (one process each); every session whose calls all returned Ok is judged by all monitors. ")
 
 PROPS["C01"] = dict(
     level="exploration",
